@@ -343,6 +343,11 @@ pub struct Case {
     /// K > 0: thread scenario with K real threads under the baton; schedule = who runs next
     pub threads: usize,
     pub schedule: Vec<u8>,
+    /// allocator fill policy of the run's thread (0 = pass .. 4 = junk, index into Fill::ALL): what
+    /// fresh heap memory contains while the history executes; helper threads spawned for the
+    /// fresh-thread comparisons keep the default (pass)
+    #[serde(default)]
+    pub fill: u8,
 }
 
 // ---- generation ------------------------------------------------------------------------------
@@ -545,6 +550,10 @@ impl Prop for C18 {
                     cur = cand;
                 }
                 steps.push(Step::Set(which, Fb(v)));
+                if invalid && r.chance(0.3) {
+                    // the same rejected request again: it must be rejected again
+                    steps.push(Step::Set(which, Fb(v)));
+                }
                 continue;
             }
             t -= w_set;
@@ -570,6 +579,9 @@ impl Prop for C18 {
                     cur = canon(law, &v);
                 }
                 steps.push(Step::Update(fbs(&v)));
+                if invalid && r.chance(0.3) {
+                    steps.push(Step::Update(fbs(&v)));
+                }
                 continue;
             }
             t -= w_upd;
@@ -602,7 +614,8 @@ impl Prop for C18 {
         } else {
             (0, vec![])
         };
-        Case { law: law.to_string(), init: if from_default { vec![] } else { fbs(&init) }, steps, seeding, script, threads, schedule }
+        let fill = if r.chance(0.5) { 0 } else { 1 + r.below(4) as u8 };
+        Case { law: law.to_string(), init: if from_default { vec![] } else { fbs(&init) }, steps, seeding, script, threads, schedule, fill }
     }
 
     fn exec(case: &Case, st: &mut Stats) -> Option<Viol> {
@@ -649,6 +662,11 @@ impl Prop for C18 {
         if !case.script.is_empty() {
             let mut c = case.clone();
             c.script.clear();
+            out.push(c);
+        }
+        if case.fill != 0 {
+            let mut c = case.clone();
+            c.fill = 0;
             out.push(c);
         }
         // simplify compare steps
@@ -718,7 +736,7 @@ impl Prop for C18 {
             "step.nonfinite", "step.default_ctor", "step.set.valid", "step.set.invalid", "step.update.valid", "step.update.invalid",
             "step.new.valid", "step.new.invalid", "step.clone", "step.compare", "outcome.rejected",
             "outcome.accepted", "by.New", "by.Set", "by.Update", "by.Clone", "by.Drop", "by.Density",
-            "fault.reject", "fault.partial", "resync.after_partial", "compare.fresh_thread", "compare.bulk", "compare.successor_same_storage",
+            "fault.reject", "fault.partial", "resync.after_partial", "compare.fresh_thread", "compare.bulk", "compare.successor_same_storage", "config.fill_policy_active",
         ]
         .iter()
         .map(|s| s.to_string())
@@ -852,6 +870,10 @@ fn exec_history(case: &Case, st: &mut Stats) -> Option<Viol> {
     h.s(law);
     dh.s(law);
     case.seeding.apply();
+    if case.fill > 0 {
+        crate::alloc_seam::set_policy(crate::alloc_seam::Fill::ALL[(case.fill as usize).min(4)], false, 0x9E37_79B9 ^ case.steps.len() as u64);
+        st.inc("config.fill_policy_active");
+    }
     st.inc(&format!("law.{}", law));
     let script: Vec<(u64, u64)> = case.script.iter().map(|f| (f.at, f.raw.0)).collect();
     let mut fired_any = 0u64;
@@ -996,14 +1018,24 @@ fn exec_history(case: &Case, st: &mut Stats) -> Option<Viol> {
                     st.inc("compare.fresh_thread");
                     let sc = subject.clone();
                     let (sd, kk) = (seed.0, *k);
+                    let obs_here = if models.len() == 1 { Some(observe(&subject, law, &models[0])) } else { None };
+                    let (lw, md) = (law.to_string(), models[0].clone());
+                    let want_obs = obs_here.is_some();
                     let fresh = std::thread::spawn(move || {
                         alea::sim::reset(alea::sim::DEFAULT_THREAD_INIT);
-                        stream(&sc, sd, kk)
+                        let o = if want_obs { Some(observe(&sc, &lw, &md)) } else { None };
+                        (stream(&sc, sd, kk), o)
                     })
                     .join();
                     match fresh {
-                        Ok(f) if f == a0 => {}
-                        Ok(f) => {
+                        Ok((f, o)) if f == a0 => {
+                            if o != obs_here {
+                                let v = mk("independence", "density_depends_on_thread_history", "compare",
+                                    "pdf/pmf/ln_pdf, mean or var of the same object evaluated on a fresh thread differ from those on the thread with the history: closed-form observables depend on state outside the object (or on the content of fresh memory)".to_string());
+                                return finish(st, &mut h, &dh, v, mutations);
+                            }
+                        }
+                        Ok((f, _)) => {
                             let pos = f.vals.iter().zip(&a0.vals).position(|(x, y)| x != y).unwrap_or(0);
                             let v = mk("independence", "depends_on_thread_history", "compare",
                                 format!("seed {:#x}: the same object sampled from the same seed on a fresh thread gives a different stream (first difference at draw {}): the stream depends on state outside the object and the seed", seed.0, pos));
